@@ -18,8 +18,13 @@
 //   Q<c>,<t>,<m>  m's loop takes c's vote request of term t     P<c>,<t>,<m>  c takes m's reply
 //   X<c>,<t>,<m>  request or reply lost                           E<c>,<t>,<m>  the call fails with an error
 //   H<k> / D<k>   deliver / drop the k-th health check in flight
+//   R<i>:<kind>:<session>:<obo>:<shape>   a client request dispatched by the real Session.dispatch on node i
+//                 (zz_verif_c17b_test.go)
 // answer:   after every event  "<term>,<leader>,<ring class>,<partitioned>,<active nodes>" per node,
 //           nodes separated by ';', events by '|'.  A node whose run loop panicked ends the line with PANIC.
+//           Suffix of a delivery: '#H:<to>,<leader>,<term>,<signature equals the receiver's before>,<nodes>,
+//           <receiver's ring afterwards is the ring of these nodes>' ('#H:-' nothing delivered),
+//           '#Q:<granted>,<term of the reply>' ('#Q:-' not delivered), '#R:...' see zz_verif_c17b_test.go.
 package main
 
 import (
@@ -32,9 +37,13 @@ import (
 	"strings"
 	"sync"
 	"time"
+
+	"github.com/tinode/chat/server/logs"
 )
 
 func init() { verifHandlers["c17"] = c17Election }
+
+var c17LogOnce sync.Once
 
 type c17Resp struct {
 	seq  uint64
@@ -141,7 +150,7 @@ func (nt *c17Net) reconnectAll() {
 	if nt.dirty {
 		// a failed call closes the endpoint; calls still pending on it then fail asynchronously
 		// and their handler (handleRpcResponse) marks the node disconnected once more: let them finish
-		time.Sleep(3 * time.Millisecond)
+		vWaitQuiet(nil)
 		nt.dirty = false
 	}
 	for _, name := range nt.names {
@@ -181,7 +190,7 @@ func (nt *c17Net) barrier(name string) bool {
 		nt.cl[name].Vote(&ClusterVoteRequest{Node: "barrier", Term: 0}, &resp)
 		res <- true
 	}()
-	for i := 0; i < 2000; i++ {
+	for i := 0; i < 30000; i++ {
 		select {
 		case <-res:
 			return true
@@ -223,6 +232,11 @@ func (nt *c17Net) observe() string {
 func c17Election(w []string) string {
 	n := c17Idx(w[0])
 	failLimit := c17Idx(w[1])
+	c17LogOnce.Do(func() {
+		// no log writes inside handlers: a goroutine blocked in write(2) on the stderr pipe looks parked
+		// ("syscall") to vQuiescent, and the observation would be taken before electLeader has finished
+		logs.Init(io.Discard, "stdFlags")
+	})
 	if globals.hub == nil {
 		globals.hub = &Hub{rehash: make(chan bool), topics: &sync.Map{}}
 		go func() {
@@ -290,7 +304,15 @@ func c17Election(w []string) string {
 	for _, ev := range w[2:] {
 		nt.reconnectAll()
 		kind, arg := ev[0], ev[1:]
+		suffix := ""
 		switch kind {
+		case 'R':
+			f := strings.Split(arg, ":")
+			c := nt.cl["n"+f[0]]
+			if c == nil {
+				return "bad event " + ev
+			}
+			suffix = c17bClientRequest(c, arg)
 		case 'T':
 			f := strings.Split(arg, ":")
 			name := "n" + f[0]
@@ -334,7 +356,7 @@ func c17Election(w []string) string {
 					close(done)
 				}()
 				// electLeader has issued all requests when every peer has a captured call
-				for i := 0; i < 5000; i++ {
+				for i := 0; i < 300000; i++ {
 					nt.mu.Lock()
 					cnt := 0
 					for _, other := range nt.names {
@@ -355,6 +377,9 @@ func c17Election(w []string) string {
 			nt.mu.Lock()
 			call := nt.calls[c17Key(cand, term, m)]
 			nt.mu.Unlock()
+			if kind == 'Q' {
+				suffix = "#Q:-"
+			}
 			if call == nil {
 				break
 			}
@@ -369,11 +394,12 @@ func c17Election(w []string) string {
 				go func() { nt.cl[m].Vote(&req, &resp); done <- true }()
 				select {
 				case <-done:
-				case <-time.After(2 * time.Second):
+				case <-time.After(30 * time.Second):
 					return strings.Join(out, "|") + "|HANG vote"
 				}
 				call.resp = c17Resp{seq: call.seq, vote: resp}
 				call.state = 2
+				suffix = "#Q:" + vB2s(resp.Result) + "," + strconv.Itoa(resp.Term)
 			case 'P':
 				if call.state != 2 {
 					break
@@ -383,16 +409,13 @@ func c17Election(w []string) string {
 					nt.dirty = true
 				}
 				call.codec.respCh <- call.resp
-				// the reply reaches electLeader through two goroutines; give it time to count it
-				if ch := nt.electing[cand]; ch != nil && nt.cl[cand].fo.term == term {
-					select {
-					case <-ch:
-						nt.electing[cand] = nil
-					case <-time.After(30 * time.Millisecond):
-					}
-				} else {
-					time.Sleep(2 * time.Millisecond)
+				// the reply reaches electLeader through two goroutines: wait until every goroutine is parked
+				// again (sound quiescence, zz_verif_topic_test.go), i.e. until electLeader has counted it
+				// and is waiting for the next reply, or has returned
+				if w := vWaitQuiet(nil); w != "" {
+					return strings.Join(out, "|") + "|" + strings.ReplaceAll(w, " ", "_")
 				}
+				nt.isElecting(cand)
 			case 'X':
 				if call.state == 1 || call.state == 2 {
 					call.state = 3
@@ -405,6 +428,9 @@ func c17Election(w []string) string {
 			}
 		case 'H', 'D':
 			k := c17Idx(arg)
+			if kind == 'H' {
+				suffix = "#H:-"
+			}
 			nt.mu.Lock()
 			if k >= len(nt.hnet) {
 				nt.mu.Unlock()
@@ -419,8 +445,11 @@ func c17Election(w []string) string {
 			nt.mu.Unlock()
 			if kind == 'H' {
 				var unused bool
+				sigBefore := nt.cl[h.to].ring.Signature()
 				nt.cl[h.to].Health(h.h, &unused)
 				nt.barrier(h.to)
+				suffix = fmt.Sprintf("#H:%s,%s,%d,%s,%s,%s", h.to[1:], h.h.Leader[1:], h.h.Term, vB2s(h.h.Signature == sigBefore),
+					c17bDigits(h.h.Nodes), vB2s(nt.cl[h.to].ring.Signature() == c17bSigOf(h.h.Nodes)))
 			}
 		default:
 			return "bad event " + ev
@@ -436,7 +465,7 @@ func c17Election(w []string) string {
 			out = append(out, "PANIC "+strings.ReplaceAll(strings.Join(dead, " / "), " ", "_"))
 			return strings.Join(out, "|")
 		}
-		out = append(out, nt.observe())
+		out = append(out, nt.observe()+suffix)
 	}
 	return strings.Join(out, "|")
 }
